@@ -86,7 +86,6 @@ def lv_unpack(txt):
     :param txt: The input string
     :return: a list og values
     """
-    txt = txt.strip()
     res = []
     while txt:
         l, v = txt.split(":", 1)
